@@ -83,6 +83,9 @@ func (*JSONHybridHandler).WithAttrs
     as(res, "*JSONHybridHandler").bufTextPool == h.bufTextPool && as(res, "*JSONHybridHandler").mu == h.mu
   ensures attrs_appended: len(as(res, "*JSONHybridHandler").textAttrs) == len(h.textAttrs) + len(attrs)
   ensures parent_unchanged: h.textAttrs == old(h.textAttrs)
+  // the derived handler does not keep the caller's slice: new attributes are
+  // copied into storage of its own
+  ensures own_attrs: len(attrs) > 0 ==> fresh(as(res, "*JSONHybridHandler").textAttrs)
 
 
 // The pooled pair: the text handler writes into exactly the buffer that
